@@ -12,3 +12,6 @@ pub mod rsindex;
 pub mod runner;
 pub mod wire;
 pub mod world;
+pub mod check7;
+pub mod res_host;
+pub mod res_world;
